@@ -150,6 +150,14 @@ CHECKS["C16"] = dict(
     note="The scan of merge_number_blocks and its five regular expressions are not modelled (deviation from the plan): the specification states what each class of input is owed and the library is judged against that. Five known findings (full stop after a decimal number, U+202F rewritten to U+00A0, Swiss apostrophe token, partly split numbers, the one-digit-per-token pattern) are listed and their examples judged in every run.",
 )
 
+CHECKS["C17"] = dict(
+    category="model_checking",
+    technique="TLA+ model of the string passes in front of the XML parser (XmlSurface.tla: entity substitution, MathJax class stripping, namespace declaration / prefix stripping, parser, trimming) on the surface choices of a document, model-checked by TLC over every sequence of <= 3 rewrites; each reachable spelling applied to suite expressions by a serializer that writes one infoset with those choices; every name of entities.in written against its numeric spelling; results recorded from the library and judged by TLC (Trace_Xml.tla), the as-built model predicting errors and edited text at refinement level",
+    text="Design: over the 528 reachable combinations of {character spelling (raw, named, named with a digit, decimal, hex, unknown name), prefix (none, m, mml), extra white space, comment, processing instruction, quote kind, MathJax class (v2, v3), look-alike text}: known names resolve, an unknown name is reported by name, spellings with one infoset give one result; refuted for the entity regex of the pinned commit (names with a digit - repaired in 7c22c39) and for 'token text is kept' when text looks like a MathJax class or a namespace declaration (known finding). Implementation: each spelling on 3 (quick) / 25 (thorough) seeded suite expressions (white space at token ends, inside token text, between elements): canonical MathML with ids renamed, speech and Nemeth braille equal the base spelling's; all 2 125 entity names equal their numeric spelling; 60 unknown names give Err naming the entity.",
+    design_ref="DESIGN.md section 5 C17",
+    note="Variants are written by a serializer from the parsed base document (one infoset by construction). Documents with element children inside tokens are not used for white-space rewrites (white space is content there). Attribute values containing 'xmlns:' or 'class=' are not generated. One known finding (text that looks like markup is edited) is listed.",
+)
+
 NOT_YET = {}
 
 
